@@ -281,6 +281,9 @@ static std::vector<Violation> case_c16(const Plan& p, CaseCtx& cx)
     const std::string& loud = oC.rec.wrote;
 
     // (b) the non-verbose messages appear unchanged, in order, among the verbose lines
+    // (a call that left by exception -- fixed-capacity overrun -- has no complete trace to judge; (a) above still applied)
+    if (oA.out.exc != 0) { if (cx.st) cx.st->add("unjudged.trace_of_a_call_that_threw"); }
+    else
     {
         ref::RefResult r = ref_for(oC);
         // message boundaries come from the reference when it agrees on the quiet text; otherwise split on '\n'
